@@ -6,7 +6,13 @@ import (
 	"strings"
 )
 
+var extraDumps = map[string]func(w *World, args []string){}
+
 func runDump(w *World, args []string) {
+	if f, ok := extraDumps[args[0]]; ok {
+		f(w, args)
+		return
+	}
 	switch args[0] {
 	case "kinds":
 		for _, k := range w.KindsL {
@@ -118,5 +124,23 @@ func runDump(w *World, args []string) {
 				fmt.Printf("   note: %s %s\n", w.Pos(n.Pos), n.Text)
 			}
 		}
+	}
+}
+
+func init() {
+	extraDumps["registry"] = func(w *World, args []string) {
+		es, err := w.registryEntries()
+		if err != "" {
+			fmt.Println("error:", err)
+		}
+		fmt.Println("{")
+		for i, e := range es {
+			c := ","
+			if i == len(es)-1 {
+				c = ""
+			}
+			fmt.Printf("  %q: [%d, %d, %d]%s\n", e.Name, e.Class, e.Field, e.Width, c)
+		}
+		fmt.Println("}")
 	}
 }
